@@ -57,7 +57,7 @@ func TestC06(t *testing.T) {
 	scfg.Crashes = 2
 	scfg.Faults = 1
 	scfg.ReadFaults = 1
-	scfg.Closes = 1
+	scfg.Closes = 2
 	scfg.IKPool = []string{"", "", "", "", "k1"} // mostly distinct writes: more logs in flight at a time
 	scfg.Cancels = 2
 	scfg.HandoffCancels = 1
